@@ -6,7 +6,7 @@ HERE = os.path.dirname(os.path.dirname(os.path.abspath(__file__)))
 # id: (built, category, technique, text, note, design_ref)
 C = {
  "C01": (True, "exploration", "reference-model monitor (ordered map) over exhaustive small scopes, boundary-directed and random builds; decoder-derived structural coverage",
-   "Every build (all subsets of {a,b}^<=3 x value styles x 6 cache geometries via hook H1, fan-out/width palettes, all 256 bytes, 70 kB keys, corpora, random and bulk maps) is reopened and streamed through every enumeration API and compared element-wise with the inserted map. Held-on-what-was-run, with exhaustive coverage of the small scopes in which the builder's case distinctions live.",
+   "Every build (all subsets of {a,b}^<=3 x value styles x 6 cache geometries via hook H1, fan-out palette, a fan-out x output-width grid, all 256 bytes, keys of 15..70000 bytes and one 17 MB key forcing 4-byte deltas, dense product sets, values solved to collide in the node cache's 64-bit digest, a hostile short-write sink, Default containers, corpora, random and bulk maps; thorough: one FST > 4 GiB) is reopened and streamed through every enumeration API and compared element-wise with the inserted map. Held-on-what-was-run, with exhaustive coverage of the small scopes in which the builder's case distinctions live.",
    "Trusts the harness' ordered-map model and generators; structural coverage classes come from the independent decoder; not a proof for all inputs.", "DESIGN.md#c01"),
  "C02": (True, "exploration", "reference-model monitor: point lookups vs ordered map, probe classes from the independently decoded node graph",
    "Every key, every proper prefix, one-byte extensions, all 256 continuations at wide nodes and the root, +-1 substitutions at every position, empty and random probes through raw/Map/Set get/contains_key/contains on the shared case pool; ~10^8 probes per quick run.",
@@ -90,7 +90,7 @@ m = {
    "guard": "--cfg burntsushi_fst_verif (rustc cfg flag, passed through RUSTFLAGS)",
    "enable": "RUSTFLAGS='--cfg burntsushi_fst_verif' cargo build --offline (the harness depends on /repo by path, so every check rebuilds the library from the working tree; fst-bin is rebuilt the same way for C19)",
    "baseline_off_cmd": "cd /repo && cargo test --workspace --no-fail-fast --offline",
-   "source_commits": ["551498d", "09028d1", "4662e10", "1a3ec36", "85523a5"],
+   "source_commits": ["551498d", "09028d1", "4662e10", "1a3ec36", "85523a5", "6750d81"],
    "add_only": True,
  },
  "engines": [
